@@ -341,6 +341,16 @@ ENGINES = {
     "Saem": dict(path="specs/Saem.tla", kind="TLA+ state machine of one MCMC-SAEM run (+ SaemTrace.tla, MC_Saem*.cfg)"),
     "VarGraph": dict(path="specs/VarGraph.tla", kind="TLA+ transcription of the dependency-graph builder (+ VarGraphTrace.tla)"),
     "StateCache": dict(path="specs/StateCache.tla", kind="TLA+ state machine of the cached variable graph (+ StateCacheTrace.tla)"),
+    # secondary modules (each check names its primary engine; these serve the listed checks as well)
+    "MixStep": dict(path="specs/MixStep.tla", kind="TLA+ closed forms of the mixture model's maximization rules, exact rationals (+ MC_MixStep, MixStepTrace.tla)", serves=["C04"]),
+    "WTAlgebra": dict(path="specs/WTAlgebra.tla", kind="TLA+ case table of WeightedTensor operators x operand kinds x maskings (+ WTAlgebraTrace.tla)", serves=["C06"]),
+    "AnnealInd": dict(path="specs/AnnealInd.tla", kind="typed TLA+ transition system of the annealing counter with arbitrary parameters; inductive invariant discharged by Apalache", serves=["C19"]),
+    "OrthoBasis": dict(path="specs/OrthoBasis.tla", kind="TLA+ case table of the orthonormal basis of the space shifts (+ OrthoBasisTrace.tla)", serves=["C10"]),
+    "Settings": dict(path="specs/Settings.tla", kind="TLA+ state machine of AlgorithmSettings objects (defaults, merge, mutation, save / load, algorithm creation); spec->code replay", serves=["C13", "C11"]),
+    "IngestLayouts": dict(path="specs/IngestLayouts.tla", kind="TLA+ case table of event / joint / covariate table layouts (+ IngestLayoutsTrace.tla)", serves=["C14"]),
+    "DataContainer": dict(path="specs/DataContainer.tla", kind="TLA+ case table of chains of selections on the Data container (+ DataContainerTrace.tla); conformance notes only", serves=["C14"]),
+    "SamplerTrace": dict(path="specs/SamplerTrace.tla", kind="trace specification of recorded sample() calls (reused by the checks on rejected proposals, decision locality, proposal scales)", serves=["C02", "C07", "C19"]),
+    "SaemTrace": dict(path="specs/SaemTrace.tla", kind="trace specification of recorded fits: schedule, batched update, closed forms on the statistics in force, temperature, logging", serves=["C04", "C05", "C06", "C11", "C19"]),
 }
 
 REASON_PENDING = "check not built yet at this commit (build in progress, see DESIGN.md section 8); not claimed until its check exists"
@@ -366,7 +376,7 @@ def main():
     engines = []
     for name, e in ENGINES.items():
         engines.append({"name": name, "path": e["path"], "kind_free_text": e["kind"],
-                        "serves_properties": [p for p, c in CLAIMED.items() if c["engine"] == name]})
+                        "serves_properties": sorted(set([p for p, c in CLAIMED.items() if c["engine"] == name] + e.get("serves", [])))})
     m = {
         "version": 1,
         "setup_cmd": "true",
